@@ -19,6 +19,11 @@ def variants(spec, gi, flip, seed=0, cap=12):
         h.relabel_atoms(dict(maps[-1]), copy=False)
         yield f"relabel_atoms({maps[-1]}, copy=False)", h
     yield "copy", g.copy()
+    if atoms:
+        scr = sorted(atoms, key=lambda a: (hash((a, gi)) % 7, -a if isinstance(a, int) else 0))
+        yield f"subgraph({scr}) (all atoms, scrambled order)", g.subgraph(scr)
+        yield "compose([g])", type(g).compose([g])
+        yield "copy-constructed", type(g)(g)
     yield "re-inserted in another order", gl.build(tmpl.reorder(spec, rng))
     rw = tmpl.rewrite(spec, gi, flip)
     yield f"descriptors rewritten (group element {gi}, flip={flip})", gl.build(rw)
